@@ -4,6 +4,7 @@ import (
 	"fmt"
 	"math"
 	"math/big"
+	"strings"
 	"testing"
 
 	"verif/internal/h"
@@ -27,6 +28,7 @@ type CmpCase struct {
 	LogAlpha int        `json:"logAlpha"` // |x| (resp. |a-b|) >= 2^-LogAlpha, LogAlpha <= 28
 	Pattern  string     `json:"pattern"`
 	ValSeed  uint64     `json:"valSeed"`
+	Again    string     `json:"again"` // second operation evaluated with the same evaluator ("" = none)
 }
 
 func (c CmpCase) RandSeed() uint64 { return c.Seed }
@@ -49,6 +51,7 @@ func genCmp(t *rapid.T) CmpCase {
 	c.LogAlpha = rapid.IntRange(1, 28).Draw(t, "logAlpha")
 	c.Pattern = []string{"uniform", "edge", "mix", "zero"}[rapid.IntRange(0, 3).Draw(t, "pattern")]
 	c.ValSeed = rapid.Uint64().Draw(t, "valSeed")
+	c.Again = []string{"", "", "step", "sign", "max", "min"}[rapid.IntRange(0, 5).Draw(t, "again")]
 	return c
 }
 
@@ -130,67 +133,104 @@ func runCmp(c CmpCase, rec *h.Rec) error {
 		return enc.EncryptNew(pt)
 	}
 
-	var out *rlwe.Ciphertext
-	var want, slack []float64
-	var pmsg string
-	switch c.Op {
-	case "sign", "step":
-		x := cmpValues(c, slots, 1)
-		ct, err := encrypt(x)
-		if err != nil {
-			return h.Failf("C13:cmp:encrypt", "%v", err)
+	signFP := func() string {
+		var sb strings.Builder
+		for i := range cmpEval.MinimaxCompositeSignPolynomial {
+			sb.WriteString(polyFingerprint(&cmpEval.MinimaxCompositeSignPolynomial[i]))
+			sb.WriteString("|")
 		}
-		want, slack = make([]float64, slots), make([]float64, slots)
-		for i, v := range x {
-			want[i] = sgn(v)
-			if c.Op == "step" {
-				want[i] = (want[i] + 1) / 2
+		return sb.String()
+	}
+	fp := signFP()
+
+	// one operation: fresh inputs (a function of the case), evaluation with the SHARED evaluator, comparison with the model
+	doOp := func(op string) error {
+		var out *rlwe.Ciphertext
+		var want, slack []float64
+		var pmsg string
+		switch op {
+		case "sign", "step":
+			x := cmpValues(c, slots, 1)
+			ct, err := encrypt(x)
+			if err != nil {
+				return h.Failf("C13:cmp:encrypt", "%v", err)
 			}
-		}
-		if c.Op == "sign" {
-			out, err, pmsg = guarded(func() (*rlwe.Ciphertext, error) { return cmpEval.Sign(ct) })
-		} else {
-			out, err, pmsg = guarded(func() (*rlwe.Ciphertext, error) { return cmpEval.Step(ct) })
-		}
-		if err != nil || pmsg != "" {
-			return h.Failf("C13:cmp:"+c.Op+":error", "%v %s", err, pmsg)
-		}
-	default:
-		// a, b in [-1/2, 1/2] with |a-b| >= 2^-logAlpha or a == b
-		d := cmpValues(c, slots, 0.5)
-		rng := h.NewSplitMix(c.ValSeed ^ 0xabcdef)
-		a, b := make([]float64, slots), make([]float64, slots)
-		want, slack = make([]float64, slots), make([]float64, slots)
-		for i := range a {
-			mid := (rng.Float64() - 0.5) * (1 - 2*math.Abs(d[i]))
-			a[i], b[i] = mid+d[i]/2, mid-d[i]/2
-			if c.Op == "max" {
-				want[i] = math.Max(a[i], b[i])
+			want, slack = make([]float64, slots), make([]float64, slots)
+			for i, v := range x {
+				want[i] = sgn(v)
+				if op == "step" {
+					want[i] = (want[i] + 1) / 2
+				}
+			}
+			if op == "sign" {
+				out, err, pmsg = guarded(func() (*rlwe.Ciphertext, error) { return cmpEval.Sign(ct) })
 			} else {
-				want[i] = math.Min(a[i], b[i])
+				out, err, pmsg = guarded(func() (*rlwe.Ciphertext, error) { return cmpEval.Step(ct) })
 			}
-			// the float64 difference may fall (by rounding) slightly below 2^-logAlpha: the gate then only
-			// guarantees a value between a and b
-			if diff := math.Abs(a[i] - b[i]); diff < math.Ldexp(1, -29) {
-				slack[i] = diff * 1.01
+			if err != nil || pmsg != "" {
+				return h.Failf("C13:cmp:"+op+":error", "%v %s", err, pmsg)
+			}
+		default:
+			// a, b in [-1/2, 1/2] with |a-b| >= 2^-logAlpha or a == b
+			d := cmpValues(c, slots, 0.5)
+			rng := h.NewSplitMix(c.ValSeed ^ 0xabcdef)
+			a, b := make([]float64, slots), make([]float64, slots)
+			want, slack = make([]float64, slots), make([]float64, slots)
+			for i := range a {
+				mid := (rng.Float64() - 0.5) * (1 - 2*math.Abs(d[i]))
+				a[i], b[i] = mid+d[i]/2, mid-d[i]/2
+				if op == "max" {
+					want[i] = math.Max(a[i], b[i])
+				} else {
+					want[i] = math.Min(a[i], b[i])
+				}
+				// the float64 difference may fall (by rounding) slightly below 2^-logAlpha: the gate then only
+				// guarantees a value between a and b
+				if diff := math.Abs(a[i] - b[i]); diff < math.Ldexp(1, -29) {
+					slack[i] = diff * 1.01
+				}
+			}
+			cta, err := encrypt(a)
+			if err != nil {
+				return h.Failf("C13:cmp:encrypt", "%v", err)
+			}
+			ctb, err := encrypt(b)
+			if err != nil {
+				return h.Failf("C13:cmp:encrypt", "%v", err)
+			}
+			if op == "max" {
+				out, err, pmsg = guarded(func() (*rlwe.Ciphertext, error) { return cmpEval.Max(cta, ctb) })
+			} else {
+				out, err, pmsg = guarded(func() (*rlwe.Ciphertext, error) { return cmpEval.Min(cta, ctb) })
+			}
+			if err != nil || pmsg != "" {
+				return h.Failf("C13:cmp:"+op+":error", "%v %s", err, pmsg)
 			}
 		}
-		cta, err := encrypt(a)
-		if err != nil {
-			return h.Failf("C13:cmp:encrypt", "%v", err)
+
+		if btp.Counter == 0 {
+			return h.Failf("C13:cmp:no-bootstrap", "the circuit needs more levels than the parameters have, yet the bootstrapper was never called")
 		}
-		ctb, err := encrypt(b)
-		if err != nil {
-			return h.Failf("C13:cmp:encrypt", "%v", err)
+
+		def := params.DefaultScale()
+		if out.Scale.Cmp(def) != 0 {
+			return h.Failf("C13:cmp:"+op+":scale", "output scale %v, documented: params.DefaultScale() = %v", &out.Scale.Value, &def.Value)
 		}
-		if c.Op == "max" {
-			out, err, pmsg = guarded(func() (*rlwe.Ciphertext, error) { return cmpEval.Max(cta, ctb) })
-		} else {
-			out, err, pmsg = guarded(func() (*rlwe.Ciphertext, error) { return cmpEval.Min(cta, ctb) })
+		got := make([]*big.Float, slots)
+		for i := range got {
+			got[i] = new(big.Float)
 		}
-		if err != nil || pmsg != "" {
-			return h.Failf("C13:cmp:"+c.Op+":error", "%v %s", err, pmsg)
+		if err = ecd.Decode(dec.DecryptNew(out), got); err != nil {
+			return h.Failf("C13:cmp:decode", "%v", err)
 		}
+		tol := math.Ldexp(1, -20)
+		for i := range got {
+			g, _ := got[i].Float64()
+			if e := math.Abs(g - want[i]); !(e <= tol+slack[i]) {
+				return h.Failf("C13:cmp:"+op+":value", "slot %d: got %v want %v (error 2^%.1f, bound 2^%.1f, logAlpha %d)", i, g, want[i], math.Log2(e), math.Log2(tol+slack[i]), c.LogAlpha)
+			}
+		}
+		return nil
 	}
 
 	rec.Class("op=" + c.Op)
@@ -198,29 +238,23 @@ func runCmp(c CmpCase, rec *h.Rec) error {
 	if c.Params.CI {
 		rec.Class("ring=ci")
 	}
-	if btp.Counter == 0 {
-		return h.Failf("C13:cmp:no-bootstrap", "the circuit needs more levels than the parameters have, yet the bootstrapper was never called")
+	if err := doOp(c.Op); err != nil {
+		return err
 	}
-
-	def := params.DefaultScale()
-	if out.Scale.Cmp(def) != 0 {
-		return h.Failf("C13:cmp:"+c.Op+":scale", "output scale %v, documented: params.DefaultScale() = %v", &out.Scale.Value, &def.Value)
-	}
-	got := make([]*big.Float, slots)
-	for i := range got {
-		got[i] = new(big.Float)
-	}
-	if err = ecd.Decode(dec.DecryptNew(out), got); err != nil {
-		return h.Failf("C13:cmp:decode", "%v", err)
-	}
-	tol := math.Ldexp(1, -20)
-	for i := range got {
-		g, _ := got[i].Float64()
-		if e := math.Abs(g - want[i]); !(e <= tol+slack[i]) {
-			return h.Failf("C13:cmp:"+c.Op+":value", "slot %d: got %v want %v (error 2^%.1f, bound 2^%.1f, logAlpha %d)", i, g, want[i], math.Log2(e), math.Log2(tol+slack[i]), c.LogAlpha)
+	// a second operation from the same evaluator object: state left behind by the first one must not matter
+	if c.Again != "" {
+		rec.Class("again=" + c.Again)
+		if err := doOp(c.Again); err != nil {
+			if f, ok := err.(*h.Failure); ok {
+				f.Key += ":second-use"
+			}
+			return err
 		}
 	}
-	rec.NonTrivial(fmt.Sprintf("cmp|%s|ci=%v|logN=%d|alpha=%d|%s|pairs=%d", c.Op, c.Params.CI, c.Params.LogN, c.LogAlpha/7, c.Pattern, (len(c.Params.Q)-2)/2))
+	if signFP() != fp {
+		return h.Failf("C13:cmp:sign-polynomial-modified", "the coefficients of Evaluator.MinimaxCompositeSignPolynomial changed during %s / %s", c.Op, c.Again)
+	}
+	rec.NonTrivial(fmt.Sprintf("cmp|%s+%s|ci=%v|logN=%d|alpha=%d|%s|pairs=%d", c.Op, c.Again, c.Params.CI, c.Params.LogN, c.LogAlpha/7, c.Pattern, (len(c.Params.Q)-2)/2))
 	return nil
 }
 
